@@ -98,6 +98,28 @@ bool ConfigData::SaveToFile(const path& file_path) {
   return SaveToStream(out);
 }
 
+bool ConfigData::SaveToFileAtomically(const path& file_path) {
+  if (file_path.empty()) {
+    return SaveToFile(file_path);
+  }
+  path temp_path(file_path);
+  temp_path += ".tmp";
+  bool saved = SaveToFile(temp_path);
+  // SaveToFile() recorded the temporary name, which is about to disappear
+  file_path_ = file_path;
+  if (!saved) {
+    return false;
+  }
+  std::error_code ec;
+  std::filesystem::rename(temp_path, file_path, ec);
+  if (ec) {
+    LOG(ERROR) << "failed to save config file '" << file_path
+               << "': " << ec.message();
+    return false;
+  }
+  return true;
+}
+
 bool ConfigData::IsListItemReference(const string& key) {
   return key.length() > 1 && key[0] == '@' && std::isalnum(key[1]);
 }
